@@ -246,11 +246,13 @@ def run(chk: Check, n):
         metrics = gen_definition(rng, i, classes, colnames)
         backend = ("ibis-sqlite", "polars-lazy")[i % 2] if i % 7 else "polars-lazy"
         power_only = make_classes.PowerOnly(rng.sample(colnames, 2)) if i % 2 == 0 else None
-        jobs.append((ids, nrows, cols, metrics, backend, power_only))
+        # the control: the default (all pairs) or given explicitly (any of the ids, not only the smallest)
+        control = None if i % 3 == 0 else sorted(ids)[rng.randrange(nv)]
+        jobs.append((ids, nrows, cols, metrics, backend, power_only, control))
     lines = []
-    for ids, nrows, cols, metrics, backend, power_only in jobs:
+    for ids, nrows, cols, metrics, backend, power_only, control in jobs:
         nv = len(ids)
-        npairs = nv * (nv - 1) // 2
+        npairs = nv * (nv - 1) // 2 if control is None else nv - 1
         ms = " ".join(f"{name} {kind_wire(m)}" for name, m in metrics.items())
         lines.append(f"trace variant {npairs} {len(metrics)} {ms}")
         pk = []
@@ -265,7 +267,7 @@ def run(chk: Check, n):
             pk.append(f"zz_power_only A {ac_wire(power_only.aggr_cols)}")
         lines.append(f"ptrace {len(pk)} {' '.join(pk)}")
     out = Driver("DriverExperiment.lean").ask(lines)
-    for j, (ids, nrows, cols, metrics, backend, power_only) in enumerate(jobs):
+    for j, (ids, nrows, cols, metrics, backend, power_only, control) in enumerate(jobs):
         model_trace = out[2 * j].split()
         model_ptrace = out[2 * j + 1].split()
         nv = len(ids)
@@ -273,7 +275,7 @@ def run(chk: Check, n):
         sql = []
         if backend == "ibis-sqlite":
             data._find_backend().con.set_trace_callback(sql.append)
-        inp = dict(backend=backend, ids=repr(ids), rows=nrows, metrics={k: type(v).__name__ for k, v in metrics.items()},
+        inp = dict(backend=backend, ids=repr(ids), control=repr(control), rows=nrows, metrics={k: type(v).__name__ for k, v in metrics.items()},
                    declared={k: kind_wire(v) for k, v in metrics.items()}, seed=chk.seed, case=j)
         chk.case(("analyze", backend, nv, nrows, len(metrics), sum(isinstance(m, tm.MetricBaseGranular) for m in metrics.values())))
         chk.branch(f"backend:{backend}")
@@ -283,7 +285,7 @@ def run(chk: Check, n):
         exp = tt.Experiment(metrics)
         with record_fetches() as ev:
             try:
-                exp.analyze(data, all_variants=True)
+                exp.analyze(data, control, all_variants=True)
             except Exception as ex:  # noqa: BLE001
                 chk.fail("Experiment.analyze raised on a valid definition", dict(input=inp, error=repr(ex)))
                 continue
